@@ -31,7 +31,8 @@ Fetch(segs, pc, n) ==
 RegNames == <<"rax", "rcx", "rdx", "rbx", "rsp", "rbp", "rsi", "rdi", "r8", "r9", "r10", "r11", "r12", "r13", "r14", "r15">>
 RN(n) == RegNames[n + 1]
 
-St0(pc) == [pc |-> pc, r |-> [n \in 0..15 |-> Zero(8)], rax |-> Zero(8), written |-> {}, status |-> "run", n |-> 0]
+St0(pc) == [pc |-> pc, r |-> [n \in 0..15 |-> [i \in 1..8 |-> 165]], rax |-> [i \in 1..8 |-> 165],     \* arbitrary on entry (poison)
+            written |-> {}, status |-> "run", n |-> 0]
 
 SetReg(st, n, v, len) ==
   [st EXCEPT !.r[n] = v, !.rax = IF n = 0 THEN v ELSE @, !.written = @ \cup {RN(n)}, !.pc = AddNat(@, len), !.n = @ + 1]
